@@ -141,50 +141,53 @@ Section Sound.
 
   (* one member of apply_actions' loop: applicability in [pre], effects on [acc] *)
   Definition member_step (pre acc : state) (c : call) : result state :=
-    if is_nop c then Ok acc
-    else do ga <- mk c; do b <- isapp ga pre;
-         if b then apply_op dom eps ga None true false (group_ids ga) [] acc else Err EValue.
+    do ga <- mk c; do b <- isapp ga pre;
+    if b then apply_op dom eps ga None true false (group_ids ga) [] acc else Err EValue.
+
+  Lemma members_one c : is_nop c = false -> members [c] = [c].
+  Proof. intros H. unfold members. cbn. rewrite H. reflexivity. Qed.
+  Lemma members_two c1 c2 : is_nop c1 = false -> is_nop c2 = false -> members [c1; c2] = [c1; c2].
+  Proof. intros H1 H2. unfold members. cbn. rewrite H1, H2. reflexivity. Qed.
 
   Lemma apply_actions_two pre c1 c2 :
+    is_nop c1 = false -> is_nop c2 = false ->
     applyA pre [c1; c2] = do a1 <- member_step pre pre c1; member_step pre a1 c2.
   Proof.
-    unfold apply_actions, member_step. cbn [foldM].
-    destruct (is_nop c1); cbn [bind].
-    - destruct (is_nop c2); [reflexivity|]. destruct (mk c2) as [g2|]; cbn [bind]; [|reflexivity].
-      destruct (isapp g2 pre) as [[|]|]; cbn [bind]; try reflexivity.
-      destruct (apply_op dom eps g2 None true false (group_ids g2) [] pre); reflexivity.
-    - destruct (mk c1) as [g1|]; cbn [bind]; [|reflexivity].
-      destruct (isapp g1 pre) as [[|]|]; cbn [bind]; try reflexivity.
-      destruct (apply_op dom eps g1 None true false (group_ids g1) [] pre) as [a1|]; cbn [bind]; [|reflexivity].
-      destruct (is_nop c2); [reflexivity|]. destruct (mk c2) as [g2|]; cbn [bind]; [|reflexivity].
-      destruct (isapp g2 pre) as [[|]|]; cbn [bind]; try reflexivity.
-      destruct (apply_op dom eps g2 None true false (group_ids g2) [] a1); reflexivity.
+    intros H1 H2. unfold apply_actions. rewrite (members_two c1 c2 H1 H2). unfold member_step. cbn [foldM].
+    destruct (mk c1) as [g1|]; cbn [bind]; [|reflexivity].
+    destruct (isapp g1 pre) as [[|]|]; cbn [bind]; try reflexivity.
+    destruct (apply_op dom eps g1 None true false (group_ids g1) [] pre) as [a1|]; cbn [bind]; [|reflexivity].
+    destruct (mk c2) as [g2|]; cbn [bind]; [|reflexivity].
+    destruct (isapp g2 pre) as [[|]|]; cbn [bind]; try reflexivity.
+    destruct (apply_op dom eps g2 None true false (group_ids g2) [] a1); reflexivity.
   Qed.
 
   (* what a successful single application tells *)
   Lemma single_inv s c s1 :
-    applyA s [c] = Ok s1 ->
+    is_nop c = false -> applyA s [c] = Ok s1 ->
     exists ga Oa, mk c = Ok ga /\ isapp ga s = Ok true /\ ops_of dom eps ga s = Ok Oa /\ s1 = apply_gops s Oa.
   Proof.
-    unfold apply_actions. destruct (mk c) as [ga|] eqn:E1; cbn [bind]; [|discriminate].
+    intros Hn. unfold apply_actions. rewrite (members_one c Hn).
+    destruct (mk c) as [ga|] eqn:E1; cbn [bind]; [|discriminate].
     rewrite apply_op_unfold. destruct (isapp ga s) as [[|]|] eqn:E2; cbn [bind negb andb]; try discriminate.
     destruct (ops_of dom eps ga s) as [Oa|] eqn:E3; cbn [bind]; [|discriminate].
     intros H. inversion H. exists ga, Oa. auto.
   Qed.
 
   Lemma single_fwd s c ga Oa :
+    is_nop c = false ->
     mk c = Ok ga -> isapp ga s = Ok true -> ops_of dom eps ga s = Ok Oa -> applyA s [c] = Ok (apply_gops s Oa).
   Proof.
-    intros E1 E2 E3. unfold apply_actions. rewrite E1. cbn [bind]. rewrite apply_op_unfold, E2. cbn [bind negb andb].
+    intros Hn E1 E2 E3. unfold apply_actions. rewrite (members_one c Hn), E1. cbn [bind]. rewrite apply_op_unfold, E2. cbn [bind negb andb].
     rewrite E3. reflexivity.
   Qed.
 
   (* a member applied on [acc] when its precondition evaluates there *)
   Lemma member_fwd pre acc c ga Oa b :
-    is_nop c = false -> mk c = Ok ga -> isapp ga pre = Ok true -> isapp ga acc = Ok b ->
+    mk c = Ok ga -> isapp ga pre = Ok true -> isapp ga acc = Ok b ->
     ops_of dom eps ga acc = Ok Oa -> member_step pre acc c = Ok (apply_gops acc Oa).
   Proof.
-    intros En E1 E2 E3 E4. unfold member_step. rewrite En, E1. cbn [bind]. rewrite E2. cbn [bind].
+    intros E1 E2 E3 E4. unfold member_step. rewrite E1. cbn [bind]. rewrite E2. cbn [bind].
     rewrite apply_op_unfold, E3. cbn [bind]. rewrite andb_false_r, E4. reflexivity.
   Qed.
 
@@ -226,8 +229,8 @@ Section Sound.
     destruct (applyA s [a]) as [s1|] eqn:E1; cbn [bind] in Hseq; [|discriminate].
     destruct (applyA s1 [b]) as [s2'|] eqn:E2; cbn [bind] in Hseq; [|discriminate].
     inversion Hseq; subst s2'. clear Hseq.
-    apply single_inv in E1. destruct E1 as (ga' & Oa & Ea1 & Ea2 & Ea3 & ->). rewrite Ega in Ea1. inversion Ea1; subst ga'. clear Ea1.
-    apply single_inv in E2. destruct E2 as (gb' & Ob & Eb1 & Eb2 & Eb3 & ->). rewrite Egb in Eb1. inversion Eb1; subst gb'. clear Eb1.
+    apply (single_inv _ _ _ Hna) in E1. destruct E1 as (ga' & Oa & Ea1 & Ea2 & Ea3 & ->). rewrite Ega in Ea1. inversion Ea1; subst ga'. clear Ea1.
+    apply (single_inv _ _ _ Hnb) in E2. destruct E2 as (gb' & Ob & Eb1 & Eb2 & Eb3 & ->). rewrite Egb in Eb1. inversion Eb1; subst gb'. clear Eb1.
     (* what the fired groups touch *)
     assert (Ta := ops_touch dom eps ga Sa s Oa ESa Ea3).
     assert (Tb := ops_touch dom eps gb Sb (apply_gops s Oa) Ob ESb Eb3).
@@ -246,16 +249,16 @@ Section Sound.
     assert (Hopb : ops_of dom eps gb s' = Ok Ob).
     { rewrite (ops_frame dom eps gb Sb s' (apply_gops s Oa) ESb); [exact Eb3|].
       eapply agree_on_trans; [apply seqv_agree; exact Heq|exact Hagb]. }
-    destruct Hl as [-> | ->]; rewrite apply_actions_two.
+    destruct Hl as [-> | ->]; rewrite apply_actions_two by assumption.
     - (* slot order = plan order *)
-      rewrite (member_fwd s' s' a ga Oa true Hna Ega Happa Happa Hopa). cbn [bind].
+      rewrite (member_fwd s' s' a ga Oa true Ega Happa Happa Hopa). cbn [bind].
       assert (Heq1 : seqv (apply_gops s' Oa) (apply_gops s Oa)) by (apply apply_gops_eqv; exact Heq).
-      rewrite (member_fwd s' (apply_gops s' Oa) b gb Ob true Hnb Egb Happb).
+      rewrite (member_fwd s' (apply_gops s' Oa) b gb Ob true Egb Happb).
       + eexists. split; [reflexivity|]. apply apply_gops_eqv. exact Heq1.
       + rewrite (is_applicable_eqv dom eps gb _ _ Heq1). exact Eb2.
       + rewrite (ops_frame dom eps gb Sb _ (apply_gops s Oa) ESb); [exact Eb3|apply seqv_agree; exact Heq1].
     - (* slot order = reverse plan order *)
-      rewrite (member_fwd s' s' b gb Ob true Hnb Egb Happb Happb Hopb). cbn [bind].
+      rewrite (member_fwd s' s' b gb Ob true Egb Happb Happb Hopb). cbn [bind].
       destruct (Htot ga Ega (apply_gops s' Ob)) as [ba Hba].
       assert (Tb' := ops_touch dom eps gb Sb s' Ob ESb Hopb).
       assert (Hopa' : ops_of dom eps ga (apply_gops s' Ob) = Ok Oa).
@@ -266,7 +269,7 @@ Section Sound.
         - intros o k Ho Hk Hin. destruct (Tb' o Ho) as (_ & _ & B3). apply in_app_or in Hk. destruct Hk as [Hk|Hk].
           + exact (c_fa Sa Sb Hc k Hk (B3 k Hin)).
           + exact (c_nn Sa Sb Hc k Hk (B3 k Hin)). }
-      rewrite (member_fwd s' (apply_gops s' Ob) a ga Oa ba Hna Ega Happa Hba Hopa').
+      rewrite (member_fwd s' (apply_gops s' Ob) a ga Oa ba Ega Happa Hba Hopa').
       eexists. split; [reflexivity|].
       eapply seqv_trans; [apply gops_commute|].
       + intros oa ob x Ha Hb Hx Hy. destruct (Ta oa Ha) as (A1 & _ & _). destruct (Tb' ob Hb) as (_ & B2 & _).
@@ -319,11 +322,11 @@ Section Sound.
       cbn [map fst] in Hseq. unfold run_sequential in Hseq. cbn [foldM] in Hseq.
       destruct (applyA s [a]) as [s1|] eqn:Es1; cbn [bind] in Hseq; [|discriminate].
       fold (run_sequential dom eps s1 (map fst rest)) in Hseq.
-      destruct (single_inv s a s1 Es1) as (ga & Oa & Ega & Eappa & Eopa & Es1').
+      destruct (single_inv s a s1 Hna Es1) as (ga & Oa & Ega & Eappa & Eopa & Es1').
       assert (Happa : isapp ga cur = Ok true) by (rewrite (is_applicable_eqv dom eps ga cur s Heq); exact Eappa).
       assert (Hsingle : exists r, applyA cur [a] = Ok r /\ seqv r s1).
       { exists (apply_gops cur Oa). split.
-        - apply (single_fwd cur a ga Oa Ega Happa).
+        - apply (single_fwd cur a ga Oa Hna Ega Happa).
           destruct (action_sets ga) as [Sa|] eqn:ESa.
           + rewrite (ops_frame dom eps ga Sa cur s ESa); [exact Eopa|apply seqv_agree; exact Heq].
           + (* without collected sets the frame argument is made directly on equivalent states *)
